@@ -32,10 +32,26 @@ fn is_ws(b: u8) -> bool {
 }
 
 /// reference semantics over the byte string
+/// a digit n in a script reads one n-tuple (`impl Readable for (A, .., )`, arity 2..8) whose component types are the letters below;
+/// by the property it must equal reading the components one after the other
+fn tuple_ops(op: char) -> Option<&'static str> {
+    match op {
+        '2' => Some("IS"),
+        '3' => Some("SIB"),
+        '4' => Some("ISBH"),
+        '5' => Some("BISUH"),
+        '6' => Some("ISBHWQ"),
+        '7' => Some("SIBUWHX"),
+        '8' => Some("ISBUWQHX"),
+        _ => None,
+    }
+}
+
 fn model(script: &str, data: &[u8]) -> Option<Vec<String>> {
     let mut pos = 0usize;
     let mut out = Vec::new();
-    for op in script.chars() {
+    let expanded: String = script.chars().map(|c| tuple_ops(c).map(|s| s.to_string()).unwrap_or(c.to_string())).collect();
+    for op in expanded.chars() {
         match op {
             'L' => {
                 if pos == data.len() {
@@ -150,6 +166,19 @@ fn real(script: &str, data: &[u8], sched: &[Option<usize>]) -> Result<Vec<String
                 'H' => out.push(format!("{}", r.read::<i64>())),
                 'X' => out.push(format!("{}", r.read::<i128>())),
                 'C' => out.push(format!("{:?}", r.read::<char>())),
+                '2' => { let t: (i32, String) = r.read(); out.push(format!("{}", t.0)); out.push(format!("{:?}", t.1)); }
+                '3' => { let t: (String, i32, u8) = r.read(); out.push(format!("{:?}", t.0)); out.push(format!("{}", t.1)); out.push(format!("{}", t.2)); }
+                '4' => { let t: (i32, String, u8, i64) = r.read(); out.push(format!("{}", t.0)); out.push(format!("{:?}", t.1)); out.push(format!("{}", t.2)); out.push(format!("{}", t.3)); }
+                '5' => { let t: (u8, i32, String, u32, i64) = r.read();
+                    out.push(format!("{}", t.0)); out.push(format!("{}", t.1)); out.push(format!("{:?}", t.2)); out.push(format!("{}", t.3)); out.push(format!("{}", t.4)); }
+                '6' => { let t: (i32, String, u8, i64, u64, u128) = r.read();
+                    out.push(format!("{}", t.0)); out.push(format!("{:?}", t.1)); out.push(format!("{}", t.2)); out.push(format!("{}", t.3)); out.push(format!("{}", t.4)); out.push(format!("{}", t.5)); }
+                '7' => { let t: (String, i32, u8, u32, u64, i64, i128) = r.read();
+                    out.push(format!("{:?}", t.0)); out.push(format!("{}", t.1)); out.push(format!("{}", t.2)); out.push(format!("{}", t.3)); out.push(format!("{}", t.4)); out.push(format!("{}", t.5));
+                    out.push(format!("{}", t.6)); }
+                '8' => { let t: (i32, String, u8, u32, u64, u128, i64, i128) = r.read();
+                    out.push(format!("{}", t.0)); out.push(format!("{:?}", t.1)); out.push(format!("{}", t.2)); out.push(format!("{}", t.3)); out.push(format!("{}", t.4)); out.push(format!("{}", t.5));
+                    out.push(format!("{}", t.6)); out.push(format!("{}", t.7)); }
                 _ => {}
             }
         }
@@ -258,7 +287,10 @@ pub fn run(_seed: u64, replay: Option<String>) -> Outcome {
     }
     // integers of every width at their extreme values: every two-way split of the stream, one byte per read, an interrupt at the split
     let ext: &[(&str, &str)] = &[("BUWQHX", "255 4294967295 18446744073709551615 340282366920938463463374607431768211455 -9223372036854775808 -170141183460469231731687303715884105728\n"),
-        ("BUWQHX", "0 0 0 0 9223372036854775807 170141183460469231731687303715884105727"), ("IHXE", "-2147483648\r\n9223372036854775807\t-1 "), ("WUB", "10000000000 65536 7")];
+        ("BUWQHX", "0 0 0 0 9223372036854775807 170141183460469231731687303715884105727"), ("IHXE", "-2147483648\r\n9223372036854775807\t-1 "), ("WUB", "10000000000 65536 7"),
+        // tuples of every arity, distinct components (an out-of-order or dropped component shows), followed by a line that must stay unread
+        ("2L", "-7 ab\nrest"), ("3E", "ab\t-2147483648 255 "), ("4L", "1 x 2 -3\r\nrest\n"), ("5L", "1 -2 x 4 -5\nrest"), ("6E", "1 x 2 -3 4 5"),
+        ("7L", "x -1 2 3 4 -5 -6\nrest"), ("8L", "-1 x 2 3 4 5 -6 -7\nrest\n"), ("82", "1 a 2 3 4 5 6 7 8 b")];
     for (script, text) in ext {
         let data = text.as_bytes().to_vec();
         let mut scheds: Vec<Vec<Option<usize>>> = vec![vec![], vec![Some(1); data.len() + 1]];
